@@ -71,7 +71,7 @@ def func_decl(tpl, name='fun'):
 
 def gen_cases(seed, thorough):
     pool = POOLS[seed % len(POOLS)]
-    maxp, maxl = (3, 5) if thorough else (2, 3)
+    maxp, maxl = (3, 5) if thorough else (3, 3)
     # 1. headers on classes and functions at namespace depth 0..2
     for p in range(1, maxp + 1):
         for lengths in itertools.product(range(0, maxl + 1), repeat=p):
@@ -282,7 +282,7 @@ def run(ctx):
                 'namespace depth 0..2; all member-level headers (method/static/ctor, 1..2 parameters) combined with '
                 'class-level lists; all typedef placements (class/function/foreign forward declaration, before/after, '
                 '1..2 arguments, templated argument, target depth 0..2, typedef global or local, with/without list); '
-                'distinct by token sequence' % ((3, 5) if ctx.thorough else (2, 3)),
+                'distinct by token sequence' % ((3, 5) if ctx.thorough else (3, 3)),
         'samples': [D.render(cases[i]['mod']) for i in (5, len(cases) // 2)],
         'exhaustive': True,
         'instantiations_expected_and_compared': sum(r.get('ninst', 0) for _, r in res),
